@@ -17,6 +17,14 @@ def check(run):
         jobs.append({"k": "matrix", "eco": eco, "tag": "U", "texts": [t for t, _ in mem], "part": [p for _, p in mem]})
     # B2: seeded universes beyond the TLC alphabet
     jobs += seeded_universes(U, rnd, 6 if quick else 40)
+    # B2: strings sampled from the regular expressions of the parsers themselves (shapes the grammar automata may lack)
+    import regexgen
+    for eco in sorted(U):
+        texts = regexgen.sample(vlib.REPO, eco, rnd, 260 if quick else 1200)
+        for i in range(0, len(texts), 400):
+            blk = texts[i:i + 400]
+            pmap = dict(U[eco])
+            jobs.append({"k": "matrix", "eco": eco, "tag": "regex", "texts": blk, "part": [1 if (eco == "alpm" and "-" in t) else 0 for t in blk]})
     total_judged = 0
     # shard: one trace per group of ecosystems to bound TLC memory/time
     nU = len(U)
